@@ -166,7 +166,9 @@ def parse(op):
             cfg["R"].append(int(v))
         elif k == "P":
             a, b, c, d = v.split(",")
-            cfg["P"].append((int(a), int(b), None if c == "n" else int(c), int(d)))
+            # `<nvars>h`: every byte is mapped as two 4-bit halves of its object (the bit path of PdoVariable)
+            cfg["H"] = cfg.get("H", set()) | ({(int(a), int(b))} if d.endswith("h") else set())
+            cfg["P"].append((int(a), int(b), None if c == "n" else int(c), int(d.rstrip("h"))))
         else:
             raise ValueError(f"bad config token {toks[i]}")
         i += 1
@@ -220,7 +222,11 @@ class Env:
             m = self.pmap(n, k)
             m.cob_id = cob
             for i in range(nv):
-                m.add_variable(0x2000 + i, 0, 8)
+                if (n, k) in cfg.get("H", ()):
+                    m.add_variable(0x2000 + i, 0, 4)
+                    m.add_variable(0x2000 + i, 0, 4)
+                else:
+                    m.add_variable(0x2000 + i, 0, 8)
 
     def pmap(self, n, k):
         node = self.net[n]
@@ -260,7 +266,15 @@ def apply_op(env, tok):
         m.data = bytearray(unhx(f[2]))
         m.update()
     elif kind == "pv":
-        env.pmap(int(f[0]), int(f[1]))[int(f[2])].raw = int(f[3])
+        if (int(f[0]), int(f[1])) in env.cfg.get("H", ()):
+            # byte i = its two mapped halves, written one after the other (each through the bit path)
+            m, i, v = env.pmap(int(f[0]), int(f[1])), int(f[2]), int(f[3])
+            if not 0 <= v <= 255 or not 0 <= 2 * i + 1 < len(m.map):
+                raise ValueError("not a byte of this map")
+            m.map[2 * i].raw = v & 0x0F
+            m.map[2 * i + 1].raw = v >> 4
+        else:
+            env.pmap(int(f[0]), int(f[1]))[int(f[2])].raw = int(f[3])
     elif kind == "pa":
         net[int(f[0])].pdo.stop()
     elif kind == "hs":
@@ -325,6 +339,54 @@ def show_api(env):
             v = "n"
         out.append(f"H{n}={STATE_NUM.get(name, '?' + name.replace(' ', '_'))}/{v}")
     return ",".join(out)
+
+
+def canon_serials(out):
+    """task serial numbers → rank among the live tasks of that moment (for histories on maps whose bytes are
+    mapped as halves: one byte write is two variable writes there, i.e. two restarts on a bus without
+    modify_data, so the serials differ from the model's while tasks, payloads and periods must not)"""
+    if out in ("-", "", "bad-op"):
+        return out
+    res = []
+    for part in out.split("|"):
+        flag, tasks, api = part.split(";")
+        if tasks != "-":
+            ts = [t.split(":", 1) for t in tasks.split(",")]
+            order = sorted(range(len(ts)), key=lambda i: int(ts[i][0]))
+            rank = {i: r for r, i in enumerate(order)}
+            tasks = ",".join(f"{rank[i]}:{ts[i][1]}" for i in range(len(ts)))
+        res.append(f"{flag};{tasks};{api}")
+    return "|".join(res)
+
+
+def has_halves(op):
+    import re
+    return re.search(r"P=\d+,\d+,\w+,\d+h", op) is not None
+
+
+def canon_model(op, out):
+    return canon_serials(out) if has_halves(op) else out
+
+
+def model_skips(op):
+    """on a half-mapped map a variable write after `pu` left a frame of another length takes the bit path on a
+    frame it does not fit (the model's byte write is defined for the byte path); such histories are judged by
+    the oracle only"""
+    if not has_halves(op):
+        return False
+    cfg, ops = parse(op)
+    size = {(n, k): nv for n, k, _, nv in cfg["P"]}
+    for tok in ops:
+        kind, _, rest = tok.partition(":")
+        f = rest.split(",")
+        if kind == "pu" and (int(f[0]), int(f[1])) in cfg.get("H", ()):
+            if len(unhx(f[2])) != size[(int(f[0]), int(f[1]))]:
+                return True
+    return False
+
+
+def canon_impl(op, out):
+    return canon_serials(out) if has_halves(op) else out
 
 
 def run_impl(op):
@@ -634,7 +696,7 @@ def rand_cfg(rng):
                         break
                 used.add(cob)
             nv = rng.choice([0, 1, 2, 2, 4, 7, 8, 8])
-            toks.append(f"P={n},{k},{cob},{nv}")
+            toks.append(f"P={n},{k},{cob},{nv}{'h' if rng.random() < 0.3 else ''}")
             pdos.append((n, k, nv))
     return toks, [n for n in ids[:nl]], [n for n in ids[nl:nl + nr]], pdos
 
@@ -740,6 +802,9 @@ def search_ops(tier, rng):
 
 
 CORPUS = [
+    # a running map whose bytes are mapped as 4-bit halves: every variable write goes through the bit path
+    "m=0 sc=d R=7 P=7,1,519,2h -- ps:7,1,1000 pv:7,1,1,171 pv:7,1,0,5 px:7,1",
+    "m=1 sc=d R=7 P=7,1,519,2h -- ps:7,1,1000 pv:7,1,1,171 pv:7,1,0,5 px:7,1",
     # F3: SyncProducer.start twice used to leak the first task
     "m=0 sc=d -- ss:100000 ss:200000 sx",
     "m=1 sc=d -- ss:100000 ss:200000",
